@@ -68,6 +68,7 @@ func runC13(opt *Options) int {
 	lb := &lbRun{Opt: opt, Convs: convs, Check: func(pc *layerb.PathCtx) {}, Bounds: layerb.Bounds{}}
 	lbres := lb.runNoExplore()
 	crashes := 0
+	clearReplaysOnce("C13")
 	known := loadKnown()
 	if lbres.Corpus != nil {
 		for i, c := range lbres.Corpus.Convs {
